@@ -172,7 +172,7 @@ func runFlattenCampaign(tier string, seed int64) (*flattenCampaign, error) {
 	h2k := `{"none", "code"}`
 	if tier == "thorough" {
 		h2k = `{"none", "code", "prop2", "same"}`
-		tk = `{"local", "aux1", "aux2", "aux3", "trans", "selfrec", "mutual", "arrayself", "mapself", "auxarrayself", "diamond", "uptrans", "crosstrans", "recdep", "recmap", "auxcase", "auxempty", "anonprop", "anonimport", "anoncase", "anonitems", "anonallof", "sharedparam", "sharedresp"}`
+		tk = `{"local", "aux1", "aux2", "aux3", "trans", "selfrec", "mutual", "arrayself", "mapself", "auxarrayself", "diamond", "uptrans", "crosstrans", "recdep", "recmap", "auxcase", "auxempty", "anonprop", "anonimport", "anoncase", "anonbackup", "anonitems", "anonallof", "sharedparam", "sharedresp"}`
 		hk = `{"prop", "items", "tuple", "addprops", "additems", "allof", "alias", "opbody", "pathbody", "code", "default", "sharedparam", "sharedresp", "nested", "opnested", "opitems", "auxresp", "auxparam", "auxpathitem", "unusedparam", "unusedresp", "unusedalias", "casesiblings", "pathbodyinline", "oddcode", "dupids", "refsib", "unuseddef", "additems1"}`
 	}
 	mc, _, mcErr := runMC("MC_Flatten", map[string]string{"TKinds": tk, "HKinds": hk, "H2Kinds": h2k}, 40*time.Minute, nWorkers())
